@@ -88,7 +88,15 @@ def safe_fitted_attrs(pm, K):
             methods[(c.name, name)] = (c, f)
     # which methods are only called after validation: compute call sites
     def stmt_safe_in_fit(C, f, cfg, v, st):
-        return cfg.dominates(v["params"], st) and cfg.dominates(v["input"], st) and st is not v["params"] and st is not v["input"]
+        if not (cfg.dominates(v["params"], st) and cfg.dominates(v["input"], st) and st is not v["params"] and st is not v["input"]):
+            return False
+        # a rejection written in fit itself (an inconsistent combination of hyper-parameters ...) must come before the store: a `raise` that can
+        # still be reached after it leaves the attribute behind on a rejected configuration
+        try:
+            later = cfg.reachable_from(st)
+        except Exception:
+            return True
+        return not any(isinstance(r_, ast.Raise) for r_ in later if r_ is not st)
 
     safe_funcs = set()
     changed = True
